@@ -1,6 +1,8 @@
 #!/usr/bin/env python3
 """C15 - shapes have value semantics: equality, hashing, copy and pickle agree.
 See DESIGN.md section 5 / C15.  Model: coq/theories/Model/ValueM.v, checker Corr/ValueK.v."""
+import copy as _copy
+import io
 import itertools
 import json
 import math
@@ -8,6 +10,7 @@ import os
 import pickle
 import sys
 from datetime import datetime, timedelta, timezone
+from fractions import Fraction
 
 sys.path.insert(0, os.path.dirname(os.path.abspath(__file__)))
 from lib import Check, REPO, guarded, reslit, zlit, blit, listlit   # noqa: E402
@@ -80,14 +83,63 @@ def build(spec, style=0, props=None):
 
 
 # ------------------------------------------------------------------ implementation object -> Gallina
+# The model is homogeneous in the unit of its numbers (it only tests equalities, the sign of the shoelace sum and z == 0),
+# so a case may be written on ANY power-of-two grid: _SC[0] is the factor of the case being written.  It is SCALE unless
+# the shapes of the case carry numbers off the quarter grid (the one-field-nudge families: 1 ulp, 1e-12 ... relative),
+# in which case exact_scale() picks the smallest power of two that makes every field an integer (exact, no rounding).
+_SC = [SCALE]
+
+
 def zq(x):
-    v = x * SCALE
-    assert v == int(v), f'off-grid number {x!r}'
+    v = Fraction(x) * _SC[0]
+    assert v.denominator == 1, f'off-grid number {x!r}'
     return int(v)
 
 
 def on_grid(x):
-    return x * SCALE == int(x * SCALE)
+    return (Fraction(x) * _SC[0]).denominator == 1
+
+
+def numbers_of(s):
+    """every number stored in a shape (own fields, holes, members)"""
+    if hasattr(s, 'geoshapes'):
+        for m in s.geoshapes:
+            yield from numbers_of(m)
+        return
+    cs = []
+    if isinstance(s, GeoPoint):
+        cs = [s.coordinate]
+    elif isinstance(s, GeoLineString):
+        cs = s.vertices
+    elif isinstance(s, GeoPolygon):
+        cs = s.outline
+    elif isinstance(s, GeoBox):
+        cs = [s.nw_bound, s.se_bound]
+    else:
+        cs = [s.center]
+        for f in ('radius', 'semi_major', 'semi_minor', 'rotation', 'inner_radius', 'outer_radius', 'angle_min', 'angle_max'):
+            if hasattr(s, f):
+                yield getattr(s, f)
+    for c in cs:
+        yield c.longitude
+        yield c.latitude
+        if c.z is not None:
+            yield c.z
+    for h in getattr(s, 'holes', []):
+        yield from numbers_of(h)
+
+
+class exact_scale:
+    """with exact_scale([shapes]): literals are written on the smallest power-of-two grid (>= SCALE) holding every field"""
+    def __init__(self, shapes):
+        self.k = max([SCALE] + [Fraction(x).denominator for s in shapes for x in numbers_of(s)])
+
+    def __enter__(self):
+        self.old = _SC[0]
+        _SC[0] = self.k
+
+    def __exit__(self, *a):
+        _SC[0] = self.old
 
 
 def colit(c, intern=None):
@@ -497,6 +549,11 @@ def observe_pair(a, b):
 
 
 def pair_lit(a, b, o):
+    with exact_scale([a, b]):
+        return _pair_lit(a, b, o)
+
+
+def _pair_lit(a, b, o):
     return (f'KPair {curve_table([a, b])} {shapelit(a)} {shapelit(b)} {blit(o["ab"])} {blit(o["ba"])} '
             f'{blit(o["hasheq"])} {o["setlen"]} {blit(o["dict"])}')
 
@@ -598,6 +655,332 @@ def copy_checks(spec, style, props):
                           f'a multi-shape hashed before its members were re-timed in place equals its never-hashed twin but '
                           f'(hash equal, copy hash equal, set size) = {ra[1][2:]}'))
     return cases, fails
+
+
+# ------------------------------------------------------------------ strengthened families (judged by the property alone)
+AREA = ('poly', 'box', 'circle', 'ellipse', 'ring', 'wedge')
+
+
+def plain_holes(rng, cx, cy, n=None):
+    """n small untimed holes (polygon / box / circle / ellipse) near (cx, cy)"""
+    hs = []
+    for j in range(rng.choice([1, 2]) if n is None else n):
+        k = rng.choice(['poly', 'box', 'circle', 'ellipse'])
+        ox = cx - 3 + 6 * j
+        if k == 'poly':
+            hs.append(['poly', ring_pts(rng, rng.choice([3, 4]), ox, cy, 2), [], None])
+        elif k == 'box':
+            hs.append(['box', [ox - 1.25, cy + 1.5], [ox + 1, cy - 1.75], [], None])
+        elif k == 'circle':
+            hs.append(['circle', [ox + .25, cy - .5], rng.choice([100, 250.5, 1000]), [], None])
+        else:
+            hs.append(['ellipse', [ox + .5, cy + .25], rng.choice([900, 1200.5]), rng.choice([300, 450.25]), rng.choice([45, 10.5]), [], None])
+    return hs
+
+
+def plain_spec(rng, kind, holes=None):
+    """a random untimed shape of the kind on the quarter grid, away from 0, the poles and the antimeridian
+    (so that the constructor stores exactly the numbers it is given); area kinds get `holes` holes (None: 0..2)"""
+    cx, cy = rng.choice([-1, 1]) * rng.randint(8, 60), rng.choice([-1, 1]) * rng.randint(8, 60)
+    fx, fy = rng.choice([0, .25, .5, .75]), rng.choice([0, .25, .5])
+    nh = rng.choice([0, 1, 2]) if holes is None else holes
+    if kind == 'point':
+        return ['point', [cx + fx, cy + fy] + ([rng.choice([5, -1.25, 120.5])] if rng.random() < .5 else []), None]
+    if kind == 'line':
+        vs = ring_pts(rng, rng.choice([2, 3, 4, 5]), cx, cy, 6, quarter=True, area=False)
+        if rng.random() < .3:
+            vs = [p + [rng.choice([1, 2.5, 40])] for p in vs]
+        return ['line', vs, None]
+    if kind == 'poly':
+        ring = ring_pts(rng, rng.choice([3, 4, 5, 6]), cx, cy, 7, quarter=True)
+        if rng.random() < .3:
+            ring = [p + [rng.choice([1, 2.5, 40])] for p in ring]
+        return ['poly', ring, plain_holes(rng, cx, cy, nh), None]
+    if kind == 'box':
+        z = [rng.choice([3, 7.5])] if rng.random() < .3 else []
+        return ['box', [cx - 6 + fx, cy + 6 + fy] + z, [cx + 6 + fx, cy - 6 - fy], plain_holes(rng, cx, cy, nh), None]
+    c = [cx + fx, cy + fy] + ([rng.choice([2, 9.75])] if rng.random() < .3 else [])
+    if kind == 'circle':
+        return ['circle', c, rng.choice([500, 1234.5, 25000.25]), plain_holes(rng, cx, cy, nh), None]
+    if kind == 'ellipse':
+        return ['ellipse', c, rng.choice([3000, 2345.75]), rng.choice([1000, 987.25]), rng.choice([33, 45, 100.5]),
+                plain_holes(rng, cx, cy, nh), None]
+    if kind in ('ring', 'wedge'):
+        a0, a1 = (0, 360) if kind == 'ring' else (rng.choice([15, 45.5]), rng.choice([140, 200.25]))
+        return ['ring', c, rng.choice([100, 321.5]), rng.choice([900, 1765.25]), a0, a1, plain_holes(rng, cx, cy, nh), None]
+    n = rng.choice([1, 2, 3])
+    mk = {'mpoint': ['point'], 'mline': ['line'], 'mpoly': ['poly', 'box', 'circle', 'poly']}[kind]
+    ms = []
+    for i in range(n):
+        m = plain_spec(rng, rng.choice(mk), holes=(rng.choice([0, 0, 1]) if holes is None else holes))
+        while any(json.dumps(m) == json.dumps(x) for x in ms):
+            m = plain_spec(rng, rng.choice(mk), holes=0)
+        ms.append(m)
+    return [kind, ms, None]
+
+
+HOLEPOS = {'poly': 2, 'box': 3, 'circle': 3, 'ellipse': 5, 'ring': 6}
+
+
+def time_variants(rng, spec):
+    """[(what, spec)]: the same geometry with time bounds in every place of the object graph that can carry them"""
+    def own(sp, d):
+        return sp[:-1] + [d]
+    inst, iv = ['inst', rng.choice([0, 2, -5.5])], rng.choice([['iv', 0, 2], ['iv', -5.5, 3], ['iv', 1, 2]])
+    out = [('no time bounds', spec), ('instant', own(spec, inst)), ('interval', own(spec, iv))]
+    if spec[0] in HOLEPOS:
+        hp = HOLEPOS[spec[0]]
+        hs = spec[hp] or plain_holes(rng, 0, 0, 1)
+        th = [own(hs[0], rng.choice([inst, iv]))] + hs[1:]
+        out.append(('only a hole is timed', spec[:hp] + [th] + spec[hp + 1:]))
+        out.append(('shape and hole timed', own(spec[:hp] + [th] + spec[hp + 1:], iv)))
+    elif spec[0].startswith('m'):
+        ms = spec[1]
+        j = rng.randrange(len(ms))
+        out.append(('only a member is timed', [spec[0], ms[:j] + [own(ms[j], rng.choice([inst, iv]))] + ms[j + 1:], None]))
+        out.append(('multi-shape and every member timed', [spec[0], [own(m, rng.choice([inst, iv])) for m in ms], iv]))
+        if ms[j][0] in HOLEPOS:
+            hp = HOLEPOS[ms[j][0]]
+            hs = ms[j][hp] or plain_holes(rng, 0, 0, 1)
+            mj = ms[j][:hp] + [[own(hs[0], inst)] + hs[1:]] + ms[j][hp + 1:]
+            out.append(('only a hole of a member is timed', [spec[0], ms[:j] + [mj] + ms[j + 1:], None]))
+    return out
+
+
+def subshapes(s):
+    out = []
+    for m in getattr(s, 'geoshapes', []):
+        out.append(m)
+        out += list(getattr(m, 'holes', []))
+    out += list(getattr(s, 'holes', []))
+    return out
+
+
+def round_trip_routes():
+    """(name, function shape -> (result, extra failures), independence promised)
+    'deep': nothing mutable is shared anywhere in the object graph (pickle, deepcopy);
+    'top': the shape's own properties / dt are fresh (copy(): the property's words); 'shallow': copy.copy (stdlib: a new
+    object whose attributes are shared) - only equality, hash, usability and the original staying undisturbed are judged"""
+    R = []
+    for p in range(pickle.HIGHEST_PROTOCOL + 1):
+        R.append((f'pickle.loads(pickle.dumps(s, protocol={p}))', (lambda s, p=p: (pickle.loads(pickle.dumps(s, protocol=p)), [])), 'deep'))
+
+    def pickler(s, p):
+        buf = io.BytesIO()
+        pickle.Pickler(buf, protocol=p).dump({'l': [s, s], 'd': {s: 'v'}})
+        out = pickle.Unpickler(io.BytesIO(buf.getvalue())).load()
+        x = out['l'][0]
+        bad = []
+        if out['l'][1] is not x or next(iter(out['d'])) is not x:
+            bad.append('one shape referenced three times in the pickled container came back as several objects')
+        if out['d'].get(x) != 'v' or out['d'].get(s) != 'v':
+            bad.append('the shape is not found as a key of the unpickled dict')
+        return x, bad
+    for p in range(pickle.HIGHEST_PROTOCOL + 1):
+        R.append((f'pickle.Pickler(protocol={p}) of a list and dict holding s', (lambda s, p=p: pickler(s, p)), 'deep'))
+    R.append(('copy.deepcopy(s)', lambda s: (_copy.deepcopy(s), []), 'deep'))
+    R.append(('copy.copy(s)', lambda s: (_copy.copy(s), []), 'shallow'))
+    R.append(('s.copy()', lambda s: (s.copy(), []), 'top'))
+    return R
+
+
+def usable_observations(s):
+    b = s.bounds
+    mid = Coordinate((b[0] + b[2]) / 2, (b[1] + b[3]) / 2)
+    return [('bounds', lambda y: y.bounds), ('to_wkt', lambda y: y.to_wkt()), ('to_shapely', lambda y: y.to_shapely().wkt),
+            ('contains_coordinate', lambda y: (y.contains_coordinate(mid), y.contains_coordinate(Coordinate(0.5, 0.5)))),
+            ('centroid', lambda y: y.centroid.to_float()), ('to_geojson', lambda y: json.dumps(y.to_geojson(), sort_keys=True, default=str)),
+            ('copy', lambda y: y.copy() == s and hash(y.copy()) == hash(s)), ('dt', lambda y: repr(y.dt)),
+            ('holes / members', lambda y: [repr(z.dt) + shapelit(z) for z in subshapes(y)])]
+
+
+def round_trip_checks(spec, style, props, warm):
+    """Mechanism class: anything that makes a shape (or an object it carries: TimeInterval, Coordinate, holes, members,
+    properties) fail to survive ONE of the serialisation routes Python offers - every pickle protocol 0..HIGHEST (protocols
+    0/1 go through copyreg and need a __dict__ or __getstate__; 2+ through __reduce_ex__/__getstate__), pickling inside a
+    container (memo, dict keys re-hashed on load), copy.copy / copy.deepcopy (reduce protocol 4) and copy() - with time
+    bounds in every position that can carry them, before and after the per-instance caches were filled.
+    Returns (gallina cases, [(clause, text)])."""
+    fails, cases = [], []
+    for name, fn, indep in round_trip_routes():
+        s = build(spec, style, props=_copy.deepcopy(props))
+        if warm:
+            guarded(lambda: (s.bounds, s.to_shapely(), hash(s), s.centroid, s.to_wkt()))
+        before = snapshot(s)
+        try:
+            x, extra = fn(s)
+        except Exception as ex:       # noqa
+            fails.append((name, f'raised {type(ex).__name__}: {ex}'))
+            continue
+        fails += [(name, e) for e in extra]
+        if type(x) is not type(s):
+            fails.append((name, f'result is a {type(x).__name__}'))
+            continue
+        r = guarded(lambda: (x == s, s == x, hash(x) == hash(s), len({x, s}), {s: 1}.get(x), x._properties == s._properties))
+        if r != ('Ok', (True, True, True, 1, 1, True)):
+            fails.append((name, f'(x == s, s == x, same hash, len({{x, s}}), {{s: 1}}.get(x), same properties) = {r}'))
+        if name != 's.copy()' and not name.startswith('pickle.Pickler'):
+            c = s.copy()
+            cases.append(f'KCopyVal {shapelit(s)} {shapelit(c)} {shapelit(x)}')
+        if x is s:
+            fails.append((name, 'the result is the original object'))
+        if indep in ('deep', 'top'):
+            if x._properties is s._properties or (s.dt is not None and x.dt is s.dt):
+                fails.append((name, 'the result shares its properties dict or dt object with the original'))
+            for k, v in s._properties.items():
+                if is_container(v) and x._properties.get(k) is v:
+                    fails.append((name, f'the result shares the nested container under {k!r}'))
+        if indep == 'deep':
+            for y, z in zip(subshapes(x), subshapes(s)):
+                if y is z or y._properties is z._properties or (z.dt is not None and y.dt is z.dt):
+                    fails.append((name, 'a hole / member of the result (or its dt, properties) is the object of the original'))
+        for what, f in usable_observations(s):
+            r0 = guarded(lambda: f(s))
+            if r0[0] == 'Ok':
+                r1 = guarded(lambda: f(x))
+                if r1 != r0:
+                    fails.append((name, f'{what} on the result: {r1} vs on the original {r0}'))
+        # updates of the result must not show through the original
+        x.set_dt(TimeInterval(EPOCH + timedelta(days=40), EPOCH + timedelta(days=41)))
+        if indep != 'shallow':
+            x.set_property('zz', 99)
+            for k, v in x._properties.items():
+                if isinstance(v, list):
+                    v.append(77)
+                elif isinstance(v, dict):
+                    v['zz'] = 1
+            for m in getattr(x, 'geoshapes', []):
+                m.set_property('yy', 1)
+                m.set_dt(EPOCH + timedelta(days=50))
+        if indep == 'deep':
+            for y in subshapes(x):
+                y.set_property('yy', 2)
+                y.set_dt(EPOCH + timedelta(days=51))
+        if snapshot(s) != before:
+            fails.append((name, 'using / updating the result changed the original'))
+    return cases, fails
+
+
+# numeric defining fields of a spec, as index paths into it
+def field_paths(spec):
+    k = spec[0]
+    P = []
+
+    def coord(path, c, nm):
+        for i in range(len(c)):
+            P.append((path + (i,), nm + ('.longitude', '.latitude', '.z')[i]))
+    if k == 'point':
+        coord((1,), spec[1], 'coordinate')
+    elif k in ('line', 'poly'):
+        for j, c in enumerate(spec[1]):
+            coord((1, j), c, f'vertex[{j}]')
+    elif k == 'box':
+        coord((1,), spec[1], 'nw_bound')
+        coord((2,), spec[2], 'se_bound')
+    elif k in ('circle', 'ellipse', 'ring'):
+        coord((1,), spec[1], 'center')
+        names = {'circle': ['radius'], 'ellipse': ['semi_major', 'semi_minor', 'rotation'],
+                 'ring': ['inner_radius', 'outer_radius', 'angle_min', 'angle_max']}[k]
+        for i, nm in enumerate(names):
+            P.append(((2 + i,), nm))
+    else:
+        for j, m in enumerate(spec[1]):
+            P += [((1, j) + p, f'member[{j}].{nm}') for p, nm in field_paths(m)]
+    if k in HOLEPOS:
+        for j, h in enumerate(spec[HOLEPOS[k]]):
+            P += [((HOLEPOS[k], j) + p, f'hole[{j}]({h[0]}).{nm}') for p, nm in field_paths(h)]
+    return P
+
+
+def get_at(spec, path):
+    for i in path:
+        spec = spec[i]
+    return spec
+
+
+def set_at(spec, path, v):
+    spec = _copy.deepcopy(spec)
+    t = spec
+    for i in path[:-1]:
+        t = t[i]
+    t[path[-1]] = v
+    return spec
+
+
+def nudges(rng, v):
+    """v itself (twice, once as the other number type) and ever larger departures from it: 1 and 3 ulp both ways,
+    1e-12 ... 1e-6 relative, the chain v, v(1+6e-10), v(1+1.5e-9) (neighbours closer than 1e-9, ends not), a random
+    relative step; absolute steps as well when v is 0"""
+    v = float(v)
+    up1, dn1 = math.nextafter(v, math.inf), math.nextafter(v, -math.inf)
+    up3 = math.nextafter(math.nextafter(up1, math.inf), math.inf)
+    sg = rng.choice([1, -1])
+    out = [v, (int(v) if v == int(v) else v), up1, dn1, up3,
+           v * (1 + sg * 1e-12), v * (1 + 6e-10), v * (1 + 1.5e-9), v * (1 - sg * 1e-9), v * (1 + sg * 3e-10), v * (1 + 1e-6),
+           v * (1 + rng.choice([1, -1]) * 10 ** -rng.uniform(5, 15))]
+    if v == 0:
+        out += [1e-12, -1e-9, 5e-7]
+    return out
+
+
+MULTI_OF = {'point': MultiGeoPoint, 'line': MultiGeoLineString}
+
+
+def nudge_family(rng, spec, path, fname, full=True):
+    """Mechanism class: a tolerance (math.isclose, round, int, float32, string formatting ...) entering the == or the
+    hash of ANY numeric defining field of any shape kind, at top level, inside a hole or inside a member, so that equality
+    stops being the exact, transitive relation the hash and the multi-shape comparison are built on.
+    All members of the family are the same shape except for the one field; the reference is exact: two members are the
+    same iff the field values are the same number.
+    Returns (fails [(clause, text, specA, specB)], members [(value, spec)])."""
+    vals = nudges(rng, get_at(spec, path))
+    specs = [set_at(spec, path, v) for v in vals]
+    objs = [build(sp, (0, 1, 2)[i % 3] if i < 2 else 0) for i, sp in enumerate(specs)]
+    n = len(objs)
+    fails = []
+    classes = []
+    for v in vals:
+        if not any(v == w for w in classes):
+            classes.append(v)
+    ncls = len(classes)
+    E = [[objs[i] == objs[j] for j in range(n)] for i in range(n)]
+    Hs = [hash(o) for o in objs]
+    for i in range(n):
+        for j in range(n):
+            same = vals[i] == vals[j]
+            if E[i][j] != E[j][i]:
+                fails.append(('symmetry', f'{fname}: a == b is {E[i][j]} but b == a is {E[j][i]}', specs[i], specs[j]))
+            if E[i][j] and not same:
+                fails.append(('differ-unequal', f'{fname} = {vals[i]!r} and {vals[j]!r} differ but the shapes compare equal', specs[i], specs[j]))
+            if same and not E[i][j]:
+                fails.append(('rewrite-equal', f'{fname} = {vals[i]!r} and {vals[j]!r} are the same number but the shapes compare unequal', specs[i], specs[j]))
+            if E[i][j] and Hs[i] != Hs[j]:
+                fails.append(('eq_hkey', f'{fname} = {vals[i]!r} / {vals[j]!r}: a == b but hash(a) != hash(b)', specs[i], specs[j]))
+    for i in range(n):
+        for j in range(n):
+            if E[i][j]:
+                for k in range(n):
+                    if E[j][k] and not E[i][k]:
+                        fails.append(('transitivity', f'{fname} = {vals[i]!r}, {vals[j]!r}, {vals[k]!r}: a == b and b == c but a != c', specs[i], specs[k]))
+    if len(set(objs)) != ncls or len(dict.fromkeys(objs)) != ncls:
+        fails.append(('set', f'{fname}: {n} shapes of {ncls} distinct values give a set of {len(set(objs))} and a dict of {len(dict.fromkeys(objs))} keys',
+                      specs[0], specs[-1]))
+    # multi-shapes over the members: equal iff the members are
+    if full and not hasattr(objs[0], 'geoshapes'):
+        cls = MULTI_OF.get(spec[0], MultiGeoPolygon)
+        other = build(plain_spec(rng, {'point': 'point', 'line': 'line'}.get(spec[0], 'box'), holes=0))
+        ms = [cls([o, other]) if i % 2 else cls([other, o]) for i, o in enumerate(objs)]
+        ME = [[ms[i] == ms[j] for j in range(n)] for i in range(n)]
+        MH = [hash(m) for m in ms]
+        for i in range(n):
+            for j in range(n):
+                same = vals[i] == vals[j]
+                if ME[i][j] != same or ME[i][j] != ME[j][i] or (ME[i][j] and MH[i] != MH[j]):
+                    fails.append(('multi', f'multi-shapes over members with {fname} = {vals[i]!r} / {vals[j]!r} and a common second member: '
+                                           f'== is {ME[i][j]} / {ME[j][i]}, hashes equal: {MH[i] == MH[j]}', specs[i], specs[j]))
+        if len(set(ms)) != ncls:
+            fails.append(('multi', f'{fname}: multi-shapes over {ncls} distinct members give a set of {len(set(ms))}', specs[0], specs[-1]))
+    return fails, list(zip(vals, specs))
 
 
 def main():
